@@ -248,7 +248,9 @@ def run(ctx):
     cov = {
         "evaluations": acc.n, "distinct_nontrivial": acc.nontrivial,
         "rule": "%d texts (C03 spelling x context texts for the default dialect, C08 missing-value documents, leap "
-                "seconds / units on sequences / mixed-case keywords / based integers, corpus files and their "
+                "seconds / units on sequences / mixed-case keywords / based integers, temporal values in 13 fraction x 5 zone "
+                "spellings, numbers beyond the float range, wrap grids of hyphenated words, every string of the "
+                "encoder-side alphabet as a quoted value, corpus files and their "
                 "single-character-deletion variants) x 4 encoders: loads, dumps, loads, dumps; non-trivial = the "
                 "first load and dump succeeded, the second load was R4-equal and the second dump compared"
                 % len(items),
